@@ -25,7 +25,6 @@ declare_class('saml2_tophat.response:StatusResponse', fields={
     'conv_info': 'Dict(Str, Any)',
 })
 declare_class('saml2_tophat.response:AuthnResponse', fields={
-    'response': "Opt(Inst('%s'))" % RESP,
     'entity_id': 'Str',
     'attribute_converters': 'Any',
     'outstanding_queries': 'Dict(Str, Any)',
@@ -40,7 +39,7 @@ declare_class('saml2_tophat.response:AuthnResponse', fields={
     'allow_unknown_attributes': 'Any',
     'valid_destination_regex': 'Opt(Str)',
     'extension_schema': 'Dict(Str, Any)',
-    'signature_check': "Func('saml2_tophat.sigver:SecurityContext.correctly_signed_response')",
+    'signature_check': "Func('saml2_tophat.sigver:SecurityContext.correctly_signed_response', recv_field='sec')",
 })
 
 ghost('md_nonempty', ['Val'], 'Bool')       # truthiness (= __len__ > 0) of a metadata store
